@@ -1040,7 +1040,7 @@ func (w *vfWorld) record(rq vfReq, in *vfInstance, req *http.Request, jar map[st
 	w.steps = append(w.steps, step)
 	w.stepObs = append(w.stepObs, map[string]interface{}{"status": o.Status, "location": vfTrunc(o.Location, 200),
 		"set_cookies": len(o.Cookies), "downstream": o.Down, "calls": len(o.Calls), "target": vfTrunc(rq.Target, 120),
-		"tag": rq.Tag, "panic": fmt.Sprint(o.Panic)})
+		"tag": rq.Tag, "panic": fmt.Sprint(o.Panic), "max_cookie_line": vfMaxLineLen(o.RawSet)})
 	w.noteTemplates()
 }
 
@@ -1246,6 +1246,16 @@ func vfValidUTF8(s string) string {
 }
 
 func base64Raw(s string) ([]byte, error) { return base64.RawURLEncoding.DecodeString(s) }
+
+func vfMaxLineLen(lines []string) int {
+	m := 0
+	for _, l := range lines {
+		if len(l) > m {
+			m = len(l)
+		}
+	}
+	return m
+}
 
 func vfTrunc(s string, n int) string {
 	if len(s) > n {
